@@ -335,6 +335,21 @@ func (g *gen) families12() {
 	for _, b := range genBases() {
 		g.singleFaultSweep("single-fault-model-file", b, "bytes", 1)
 	}
+	// thorough: every PAIR of bit flips of the smallest weight files (compensating damage: an extent and a payload
+	// length changed consistently is a different well-formed tensor and must load as exactly that)
+	if thorough {
+		for _, b := range weightOnly {
+			if len(b.data) > 72 {
+				continue
+			}
+			nb := len(b.data) * 8
+			for i := 0; i < nb && !g.stop; i++ {
+				for j := i + 1; j < nb; j++ {
+					g.bytesCase("double-fault-weight-file", b, []medium.Fault{{Kind: medium.BitFlip, Off: i / 8, Bit: i % 8}, {Kind: medium.BitFlip, Off: j / 8, Bit: j % 8}}, nil, "bytes", "")
+				}
+			}
+		}
+	}
 	// W. seeded multi-fault search and torn v1->v2 weight updates until the budget is used
 	g.random12(weightOnly)
 }
